@@ -236,9 +236,9 @@ Proof.
   - destruct l as [|[h|?] args]; try contradiction.
     apply core_app in Hc. destruct Hc as [Hargs Hh]. inversion IH as [|? ? _ IHargs]; subst.
     cbn [simpleb].
-    assert (Hhd : negb (is_paren h) = true /\ quant_head h = None /\ app_head h = true).
+    assert (Hhd : negb (is_paren h) = true /\ let_head h = false /\ quant_head h = None /\ app_head h = true).
     { destruct Hh as [[[->| ->] _]|[[-> _]|[[-> _]|[[-> _]|[-> _]]]]]; repeat split; reflexivity. }
-    destruct Hhd as (-> & -> & ->). cbn [andb]. apply forallb_forall. intros y Hy.
+    destruct Hhd as (-> & -> & -> & ->). cbn [andb]. apply forallb_forall. intros y Hy.
     rewrite Forall_forall in *. apply IHargs; [exact Hy | now apply Hargs].
 Qed.
 
@@ -258,7 +258,7 @@ Theorem parse_agrees_core_partial Sg D :
               forall I, wf_interp I -> std_eval Sg I x = Some (eval I t).
 Proof.
   intros Ht Hf x Hc s i s' rest k Hi Htoks He.
-  destruct (machine_simple x (core_simple Sg D x Hc) k [] s i s' rest He Htoks) as [G T].
+  destruct (machine_simple_top x (core_simple Sg D x Hc) k s i s' rest He Htoks) as [G T].
   destruct (elab_agrees_core Sg D Ht Hf x Hc s i s' Hi He) as (Hi' & t & -> & Htc & _ & Hsem).
   split; [exact G|]. split; [exact T|]. split; [exact Hi'|].
   exists t. split; [reflexivity|]. split; [exact Htc|]. intros I HI. apply (Hsem I HI).
